@@ -930,12 +930,13 @@ def run(scn, ch, log=False):
                         # one discriminating circumstance per key, most specific first
                         if in_close_wait:
                             why = ":after_cancelled_close"
-                        elif code == 1006 and pc is None:
-                            why = ":peer_close_without_status"
                         elif code == 1006 and "receive_timeout_fired" in flags:
                             why = ":after_receive_timeout"
                         elif code == 1006 and "two_closes_during_receive" in flags:
                             why = ":two_closes_during_receive"
+                        elif code == 1006 and pc is None:
+                            # on its own no longer a cause since the C13-F3 repair (6d9b2bb)
+                            why = ":peer_close_without_status"
                         elif code != 1006 and "close_during_receive" in flags:
                             why = ":close_during_receive"
                         else:
